@@ -25,8 +25,10 @@ Limbs(i)  == IF i >= Huge THEN <<65535, 65535, 65535, 65535>> ELSE <<i % 65536, 
 
 \* store(v, buf, i): Ok, pixel i holds v in the documented layout, nothing else changed, and the
 \* library's own load returns v; beyond the buffer: Err, buffer unchanged, load = None
+\* (it[6] = 1: the raw object held bits above its bit depth although it came from RawData::from_u32)
 StoreFails(bpp, order, buf, it) ==
   LET i == IxVal(it[1])  v == it[2]  res == it[3]  after == it[4]  back == it[5] IN
+  (IF it[6] = 0 THEN {} ELSE {"raw_value_exceeds_its_bit_depth"}) \cup
   IF InRange(bpp, buf, i)
   THEN (IF res = 1 THEN {} ELSE {"store_not_ok"})
   \cup (IF Len(after) = Len(buf) /\ Load(bpp, order, after, i) = v THEN {} ELSE {"store_layout"})
